@@ -1,6 +1,6 @@
 """C18 — snapshot operations honour the tree lock (schedules).
 
-Seven kinds of cases, all evaluated by the Coq lock machine (CaseLock.run18) and by the code:
+Nine kinds of cases (plus the extractor self-tests), all evaluated by the Coq lock machine (CaseLock.run18) and by the code:
 
   sched  arbitrary thread programs (Acq/Rel/Read/Write) under an arbitrary schedule, re-executed by REAL
          threads on the `_lock` object of a real nutree Tree, one event per scheduler tick
@@ -29,6 +29,16 @@ Seven kinds of cases, all evaluated by the Coq lock machine (CaseLock.run18) and
   inv    the owner calls an operation INSIDE `with tree:` while a reader is ALREADY blocked on the tree lock
          (signalled by a probe wrapper of the lock): the owner must complete (re-entrancy; no second lock
          taken in the opposite order), then the reader completes on the committed state.
+
+  alias  PRIVATE SNAPSHOT: save() serialises after the release, to_dict_list() hands its result out - so nothing in the
+         document given to json.dump (captured by wrapping json.dump for the call) / in the returned list may BE
+         (`is`) a live node-data dict, a nested mutable of it, a meta dict or a child list; for every stock mapper
+         (none, Tree/TypedTree.serialize_mapper, DictWrapper.serialize_mapper, a user mapper) x str / DictWrapper data
+         x stream / path; a shared object is one more Read at the moment it is consumed (json.dump time, or after
+         the return) in the trace that the machine judges;
+  dump   the schedule for it (Events only): the reader is paused in its first write() - after the release for
+         Tree.save, under the lock for to_dotfile and TypedTree.save - while a writer changes two nodes' data IN
+         PLACE inside one `with tree:`; the written document must be the state before the section.
 
 Waiting for something that must NOT happen (0.12 s) can only fail to detect; waiting for something that
 must happen is bounded by 20 s (a false alarm needs a 20 s stall of a trivial operation).
@@ -721,6 +731,137 @@ def gen_bracketed(rng, maxlen, writer):
 
 
 # ---------------------------------------------------------------------------
+
+# ---------------------------------------------------------------------------
+# private snapshots: what leaves the locked phase must not alias live node data   (kinds `alias`, `dump`)
+# ---------------------------------------------------------------------------
+# save() materialises the node list under the lock and serialises it AFTER the release (json.dump); to_dict_list()
+# hands its result to the caller.  Both are snapshots only if every mutable object in the result is a private one: a
+# result that IS (`is`) a live `node.data` dict, a node's meta dict or child list is read after the release.
+from nutree.common import DictWrapper  # noqa: E402
+
+MAPPERS = {
+    "none": lambda tree: None,
+    "class_default": lambda tree: type(tree).serialize_mapper,
+    "dictwrapper": lambda tree: DictWrapper.serialize_mapper,
+    "user_fresh": lambda tree: (lambda node, data: {"v": str(node.data)}),
+}
+
+
+def build_dw_tree(typed, data_kind):
+    """Two 'accounts' (a: 100, b: 0) and a child; data = DictWrapper (mutable in place) or str; a and b carry meta."""
+    tree = TypedTree("acc") if typed else Tree("acc")
+
+    def mk(name, bal):
+        if data_kind == "dictwrapper":            # flat: immutable values only
+            return DictWrapper({"name": name, "balance": bal})
+        if data_kind == "dictwrapper_nested":     # a mutable value inside the wrapped dict
+            return DictWrapper({"name": name, "balance": bal, "tags": [name]})
+        return f"{name}:{bal}"
+
+    kw = dict(kind="acct") if typed else {}
+    a = tree.add(mk("a", 100), **kw)
+    b = tree.add(mk("b", 0), **kw)
+    c = a.add(mk("c", 7), **kw)
+    a.set_meta("note", ["x"])
+    b.set_meta("note", ["y"])
+    return tree, a, b, c
+
+
+def _mutables(obj, path, out, seen):
+    """id -> path of every mutable container reachable from obj through containers / DictWrapper."""
+    if isinstance(obj, DictWrapper):
+        _mutables(obj._dict, path + "._dict", out, seen)
+        return
+    if isinstance(obj, (dict, list, set, bytearray)):
+        if id(obj) in seen:
+            return
+        seen.add(id(obj))
+        out[id(obj)] = path
+        items = obj.items() if isinstance(obj, dict) else enumerate(obj) if isinstance(obj, list) else []
+        for k, v in items:
+            _mutables(v, f"{path}[{k!r}]", out, seen)
+    elif isinstance(obj, tuple):
+        for k, v in enumerate(obj):
+            _mutables(v, f"{path}[{k}]", out, seen)
+
+
+def live_objects(tree):
+    """Every mutable object that belongs to the live tree's node data / meta / child lists."""
+    out: dict = {}
+    seen: set = set()
+    stack = [tree._root]
+    while stack:
+        n = stack.pop()
+        nm = "root" if n is tree._root else f"node {str(n._data)[:24]!r}"
+        if n is not tree._root:
+            _mutables(n._data, nm + ".data", out, seen)
+            if getattr(n, "_meta", None) is not None:
+                _mutables(n._meta, nm + ".meta", out, seen)
+        if n._children is not None:
+            out[id(n._children)] = nm + ".children"
+            stack.extend(n._children)
+    return out
+
+
+def aliases(result, tree):
+    """Paths of the live objects that the (detached?) result contains.  (The harness' own walk over the live tree is
+    not part of the operation: recording is suspended meanwhile.)"""
+    armed = _ARM["tree"]
+    _ARM["tree"] = None
+    try:
+        live = live_objects(tree)
+    finally:
+        _ARM["tree"] = armed
+    mine: dict = {}
+    _mutables(result, "result", mine, set())
+    return sorted(f"{rp} IS {live[i]}" for i, rp in mine.items() if i in live)
+
+
+class _Captured(Exception):
+    pass
+
+
+def capture_save_document(tree, mapper, target):
+    """The object Tree.save() hands to json.dump after it released the lock (json.dump is wrapped for this call)."""
+    import json as _json
+
+    box = {}
+    orig = _json.dump
+
+    def spy(obj, fp, *a, **k):
+        if "doc" not in box:
+            box["doc"] = obj
+            if aliases(obj, tree):
+                _rec(tree, R)          # serialising it reads live node data - here, wherever the lock stands now
+        return orig(obj, fp, *a, **k)
+
+    _json.dump = spy
+    try:
+        tree.save(target, mapper=mapper) if mapper is not None else tree.save(target)
+    finally:
+        _json.dump = orig
+    return box.get("doc")
+
+
+class PausingStream:
+    """Text stream whose FIRST write() announces itself and waits for `resume` (bounded)."""
+
+    def __init__(self, first_write, resume, bound):
+        self.chunks, self.first_write, self.resume, self.bound, self.timed_out = [], first_write, resume, bound, False
+
+    def write(self, s):
+        if not self.first_write.is_set():
+            self.first_write.set()
+            if not self.resume.wait(self.bound):
+                self.timed_out = True
+        self.chunks.append(s)
+        return len(s)
+
+    def getvalue(self):
+        return "".join(self.chunks)
+
+
 class Prop:
     id = "C18"
     coq_prop = "Properties/C18.v"
@@ -809,6 +950,25 @@ class Prop:
             if thorough:
                 for op in RAISING_OPS:
                     yield dict(k="after", typed=typed, op=op, shape="deep")
+        # private snapshots: nothing that leaves the locked phase of save()/to_dict_list() may BE live node data
+        for typed in (False, True):
+            for data_kind in ("dictwrapper", "str"):
+                for mp in MAPPERS:
+                    if mp == "dictwrapper" and data_kind != "dictwrapper":
+                        continue
+                    for via in ("save_stream", "save_path", "to_dict_list"):
+                        yield dict(k="alias", typed=typed, data=data_kind, mapper=mp, via=via)
+                    # ... and the schedule: reader inside json.dump (lock released) / inside to_dotfile's write (lock
+                    # held) while a writer changes two nodes' data in place inside ONE `with tree:`
+                    for via in ("save", "to_dotfile"):
+                        if via == "to_dotfile" and (mp != "none" or data_kind != "str"):
+                            continue      # (DOT ids of DictWrapper data are object ids: documents not comparable)
+                        yield dict(k="dump", typed=typed, data=data_kind, mapper=mp, via=via)
+            # D93 (unchanged code): DictWrapper.serialize_mapper copies SHALLOWLY - a mutable value inside the
+            # wrapped dict is still shared with the document that json.dump reads after the release
+            for via in ("save_stream", "to_dict_list"):
+                yield dict(k="alias", typed=typed, data="dictwrapper_nested", mapper="dictwrapper", via=via)
+            yield dict(k="dump", typed=typed, data="dictwrapper_nested", mapper="dictwrapper", via="save")
         # the owner calls an operation inside `with tree:` while a reader is already blocked on the tree lock
         pairs = [(op, op) for op in GOOD_OPS] + [("save_path", "to_dotfile_path"), ("to_dotfile_path", "save_path"),
                                                   ("save_path", "save"), ("with", "save_path")]
@@ -882,7 +1042,7 @@ class Prop:
         if key in _FAILED:
             return _FAILED[key]
         c = self._run_threads(desc)
-        if c.oracle_fail and k in ("park", "owner", "free", "after", "inv"):
+        if c.oracle_fail and k in ("park", "owner", "free", "after", "inv", "dump"):
             _FAILED[key] = c
         return c
 
@@ -902,6 +1062,10 @@ class Prop:
                 return self.run_after(desc, tmp)
             if k == "inv":
                 return self.run_inv(desc, tmp)
+            if k == "alias":
+                return self.run_alias(desc, tmp)
+            if k == "dump":
+                return self.run_dump(desc, tmp)
         finally:
             shutil.rmtree(tmp, ignore_errors=True)
         raise ValueError(k)
@@ -1112,6 +1276,201 @@ class Prop:
                f"{H.coq_list(['1'])}")
         return Case(desc=desc, coq_input=coq, impl_obs=obs, oracle_fail=fail, nontrivial=raised,
                     key=H.digest(desc), stats=dict(kind="after", label=label, raised=raised, xtrace=name))
+
+    # --- alias: the materialised snapshot must be made of private objects
+    def run_alias(self, desc, tmp):
+        typed, data_kind, mp, via = desc["typed"], desc["data"], desc["mapper"], desc["via"]
+        tree, a, b, c = build_dw_tree(typed, data_kind)
+        mapper = MAPPERS[mp](tree)
+        label = label_of(tree, "save" if via.startswith("save") else "to_dict_list")
+        tree._lock = RecLock(tree._lock, tree)
+        box = {}
+
+        def call():
+            if via == "to_dict_list":
+                box["doc"] = tree.to_dict_list(mapper=mapper) if mapper is not None else tree.to_dict_list()
+            else:
+                target = io.StringIO() if via == "save_stream" else f"{tmp}/alias.json"
+                box["doc"] = capture_save_document(tree, mapper, target)
+            return "ok"
+
+        def guarded_call():
+            try:
+                return call()
+            except Exception as e:  # noqa: BLE001
+                return _err(e)
+
+        raw, res, finished = record(tree, guarded_call)
+        tr = collapse(raw)
+        shared = aliases(box.get("doc"), tree) if box.get("doc") is not None else []
+        # a result that still refers to live node data is read when it is consumed: by json.dump (recorded by the spy at
+        # that moment - TypedTree.save serialises inside its outer bracket, Tree.save after the release), by the
+        # caller of to_dict_list after the return
+        tr_eff = tr + ([R] if shared and via == "to_dict_list" else [])
+        fail = (None if trace_oracle(tr_eff, label) is None or shared else trace_oracle(tr_eff, label)) if finished \
+            else f"alias: {label}: the operation does not return"
+        if fail is None and shared and trace_oracle(tr_eff, label) is not None:
+            what = "the document handed to json.dump after the lock was released" if via.startswith("save") else "the returned list"
+            fail = (f"alias: {label}(mapper={mp}, data={data_kind}): {what} contains LIVE node data ({shared[0]}"
+                    f"{' and %d more' % (len(shared) - 1) if len(shared) > 1 else ''}): it is read outside `with tree:`")
+        finding = None
+        if fail and shared and data_kind == "dictwrapper_nested" and all("['tags'] IS " in x and x.endswith("['tags']") for x in shared):
+            finding = "D93"       # exactly the nested lists, nothing else: the shallow copy of the unchanged code
+        err = bool(res and str(res).startswith("ERR"))
+        member = not shared and not err
+        tr = tr_eff
+        coq = f"CTrace {H.coq_text(('' if member else 'exc:') + label)} {H.coq_list(str(e) for e in tr_eff)}"
+        return Case(desc=desc, coq_input=coq, impl_obs=trace_obs(tr_eff, member=member), oracle_fail=fail, finding=finding, nontrivial=R in tr,
+                    key=H.digest(desc), stats=dict(kind="alias", label=label, mapper=mp, data=data_kind, aliased=min(len(shared), 3),
+                                                   result_error=err))
+
+    # --- dump: the reader is in the serialisation phase while a writer changes node data IN PLACE in one section
+    def run_dump(self, desc, tmp):
+        typed, data_kind, mp, via = desc["typed"], desc["data"], desc["mapper"], desc["via"]
+
+        def mutate_first(a, b):
+            if data_kind.startswith("dictwrapper"):
+                a.data["balance"] -= 50
+                if "tags" in a.data._dict:
+                    a.data["tags"].append("debited")
+            else:
+                a.set_data("a:50")
+
+        def mutate_second(a, b):
+            if data_kind.startswith("dictwrapper"):
+                b.data["balance"] += 50
+                if "tags" in b.data._dict:
+                    b.data["tags"].append("credited")
+            else:
+                b.set_data("b:50")
+
+        def run_op_stream(tree, stream):
+            mapper = MAPPERS[mp](tree)
+            if via == "save":
+                tree.save(stream, mapper=mapper) if mapper is not None else tree.save(stream)
+            else:
+                tree.to_dotfile(stream)
+
+        def doc_at(k):                       # the document of an equal tree after k of the two mutations
+            t, a, b, _ = build_dw_tree(typed, data_kind)
+            if k >= 1:
+                mutate_first(a, b)
+            if k >= 2:
+                mutate_second(a, b)
+            fp = io.StringIO()
+            try:
+                run_op_stream(t, fp)
+            except Exception as e:  # noqa: BLE001
+                return _err(e)
+            return fp.getvalue()
+
+        docs = [doc_at(k) for k in range(3)]
+        tree, a, b, _ = build_dw_tree(typed, data_kind)
+        label = label_of(tree, via)
+        plock = ProbeLock(tree._lock)
+        tree._lock = plock
+        first_write, resume, reader_done, writer_done = (threading.Event() for _ in range(4))
+        stream = PausingStream(first_write, resume, T(20))
+        box = {}
+
+        def reader():
+            try:
+                run_op_stream(tree, stream)
+            except Exception as e:  # noqa: BLE001
+                box["rerr"] = _err(e)
+            reader_done.set()
+
+        def writer():
+            plock.waiting[threading.get_ident()] = resume      # blocked on the tree lock (reader writes under it): go on
+            if not first_write.wait(T(20)):
+                box["werr"] = "reader never wrote"
+                resume.set()
+                return
+            with tree:
+                mutate_first(a, b)
+                resume.set()                                   # half-way through the critical section
+                box["reader_done_inside"] = reader_done.wait(T(20)) if not box.get("skip") else True
+                mutate_second(a, b)
+            writer_done.set()
+
+        unusable = any(d.startswith("ERR") for d in docs) or len(set(docs)) < 3
+        tw = threading.Thread(target=writer, daemon=True)
+        tr_ = threading.Thread(target=reader, daemon=True)
+        tr_.start()
+        tw.start()
+        rfin = reader_done.wait(T(30))
+        wfin = writer_done.wait(T(30))
+        text = stream.getvalue()
+        seen = [k for k in range(3) if docs[k] == text]
+        fail = None
+        if "rerr" in box and not unusable:
+            fail = f"dump: {label}: the reader failed: {box['rerr']}"
+        elif not rfin or not wfin or stream.timed_out or "werr" in box:
+            fail = f"dump: {label}: threads did not complete ({box.get('werr', 'timeout')})"
+        elif not unusable and seen != [0]:
+            fail = (f"dump: {label}(mapper={mp}, data={data_kind}): the written document is not a state between two critical "
+                    f"sections: the reader had taken its snapshot before the writer entered `with tree:`, but the document "
+                    f"{'equals state %d' % seen[0] if seen else 'is the state in the MIDDLE of the section / a mixture'}")
+        finding = None
+        if fail and data_kind == "dictwrapper_nested" and not seen and rfin and wfin:
+            try:      # exactly the shallow-copy effect: state 0 everywhere except the nested lists
+                got, want = json.loads(text), json.loads(docs[0])
+                strip = lambda d: json.loads(json.dumps(d).replace('"debited"', '"x"').replace('"credited"', '"x"'))  # noqa: E731
+                flat = lambda d: [{k: v for k, v in e[1].items() if k != "tags"} for e in d["nodes"]]  # noqa: E731
+                if flat(got) == flat(want) and strip(got) != strip(want) or flat(got) == flat(want):
+                    finding = "D93"
+            except Exception:  # noqa: BLE001
+                pass
+        # model: the reader's recorded program, split where its first write() paused; a document that still refers to
+        # live node data is one more Read when it is serialised (after the pause).  The writer gets in at the pause
+        # iff the reader does not hold the lock there.
+        pre, post = self._traced_dw(typed, data_kind, run_op_stream)
+        held = sum(1 if e == A else -1 if e == L else 0 for e in pre)
+        ps = [pre + post, [A, W, W, L]]
+        sched = [0] * len(pre) + ([1, 1] if held == 0 else []) + [0] * len(post) + ([1, 1] if held == 0 else [1] * 4)
+        ok_seen = [0] if (unusable or seen == [0]) else [0, 1]     # structure at 0, (some) data from inside the section
+        obs = [bool(rfin and wfin), True, all(py_bracketed(p) for p in ps), [ok_seen if R in ps[0] else []]]
+        coq = (f"CHist {H.coq_list(H.coq_list(str(e) for e in p) for p in ps)} {H.coq_list(str(t) for t in sched)} "
+               f"{H.coq_list(['0'])}")
+        return Case(desc=desc, coq_input=coq, impl_obs=obs, oracle_fail=fail, finding=finding, nontrivial=not unusable,
+                    key=H.digest(desc), stats=dict(kind="dump", label=label, mapper=mp, data=data_kind, compared=not unusable))
+
+    def _traced_dw(self, typed, data_kind, run_op_stream):
+        """(events before the first write(), events from there on) of the operation on an equal tree, single-threaded;
+        the second part starts with a Read if the document handed to json.dump still refers to live node data."""
+        import json as _json
+
+        tree, _, _, _ = build_dw_tree(typed, data_kind)
+        tree._lock = RecLock(tree._lock, tree)
+        mark = {"split": None, "leak": False}
+        orig = _json.dump
+
+        def spy(obj, fp, *a, **k):
+            mark["leak"] = mark["leak"] or bool(aliases(obj, tree))
+            return orig(obj, fp, *a, **k)
+
+        class Marking(io.StringIO):
+            def write(self2, text):
+                if mark["split"] is None:
+                    mark["split"] = len(_ARM["log"]) if _ARM["log"] is not None else 0
+                    if mark["leak"]:
+                        _rec(tree, R)
+                return super().write(text)
+
+        def call():
+            try:
+                run_op_stream(tree, Marking())
+                return "ok"
+            except Exception as e:  # noqa: BLE001
+                return _err(e)
+
+        _json.dump = spy
+        try:
+            raw, res, finished = record(tree, call)
+        finally:
+            _json.dump = orig
+        k = len(raw) if mark["split"] is None else mark["split"]
+        return collapse(raw[:k]), collapse(raw[k:])
 
     # --- inv: the owner calls an operation nested while a reader is ALREADY blocked on the tree lock
     def run_inv(self, desc, tmp):
